@@ -71,6 +71,20 @@ type pgen struct {
 	paths    map[kind][]string // expressions reading obj, by kind of the value found there
 	pathLen  map[string]int
 	excluded map[string]int
+	// call-stack overflow somewhere in the program / xpcall somewhere in the program: kept
+	// apart while the listed finding panic-nil-return-value is open
+	overflowRisk bool
+	usesXpcall   bool
+}
+
+// overflow announces a construct that can overflow the Lua call stack; false = not allowed here.
+func (g *pgen) overflow() bool {
+	if g.usesXpcall && isOpen(sigNilReturn) {
+		g.exclude(sigNilReturn)
+		return false
+	}
+	g.overflowRisk = true
+	return true
 }
 
 // uniform draws 0..n-1 with (nearly) equal probabilities: rapid's integer generators are
@@ -423,7 +437,11 @@ func (g *pgen) metaFields(d int) string {
 		case 1:
 			parts = append(parts, "__index = function(t, k) return "+g.anyScalar(d+1)+" end")
 		case 2:
-			parts = append(parts, "__index = function(t, k) return t[k] end") // recursion -> stack overflow error
+			if g.overflow() {
+				parts = append(parts, "__index = function(t, k) return t[k] end") // recursion -> stack overflow error
+			} else {
+				parts = append(parts, "__index = function(t, k) return rawget(t, k) end")
+			}
 		case 3:
 			parts = append(parts, "__newindex = function(t, k, v) rawset(t, k, v) end")
 		case 4:
@@ -1092,6 +1110,9 @@ func (g *pgen) recursion(d int) string {
 	switch g.draw("rec-kind", 7) {
 	case 0, 1:
 		n := []int{0, 5, 50, 150, 190}[g.draw("rec-depth", 5)]
+		if n >= 150 && !g.overflow() {
+			n = 50
+		}
 		g.vars = append(g.vars, gvar{r, kNum, false, 0})
 		return fmt.Sprintf("local function %s(n)\nif n <= 0 then return 0 end\nreturn 1 + %s(n - 1)\nend\nlocal %s = %s(%d)", f, f, r, f, n)
 	case 2:
@@ -1100,6 +1121,9 @@ func (g *pgen) recursion(d int) string {
 		return fmt.Sprintf("local function %s(n)\nreturn 1 + %s(n + 1)\nend\nlocal %s = select(2, pcall(%s, 1))", f, f, r, f)
 	case 3:
 		g.class("recursion-stack-overflow")
+		if !g.overflow() {
+			return fmt.Sprintf("local function %s(n)\nif n > 20 then return n end\nlocal x = %s(n + 1)\nreturn x\nend\n%s(1)", f, f, f)
+		}
 		return fmt.Sprintf("local function %s(n)\nlocal x = %s(n + 1)\nreturn x\nend\n%s(1)", f, f, f) // unprotected: ends the script with "stack overflow"
 	case 4:
 		g.class("tailcall-bounded")
@@ -1109,11 +1133,18 @@ func (g *pgen) recursion(d int) string {
 	case 5:
 		h := g.id("f")
 		n := []int{3, 40, 120}[g.draw("mutual-depth", 3)]
+		if n >= 120 && !g.overflow() {
+			n = 40
+		}
 		g.vars = append(g.vars, gvar{r, kBool, false, 0})
 		return fmt.Sprintf("local %s, %s\nfunction %s(n) if n == 0 then return true end local x = %s(n - 1) return x end\nfunction %s(n) if n == 0 then return false end local x = %s(n - 1) return x end\nlocal %s = %s(%d)", f, h, f, h, h, f, r, f, n)
 	default:
 		g.vars = append(g.vars, gvar{r, kTbl, false, 0})
-		return fmt.Sprintf("local function %s(t, n)\nif n <= 0 then return t end\nreturn {%s(t, n - 1)}\nend\nlocal %s = %s({}, %d)", f, f, r, f, []int{2, 20, 100}[g.draw("nest-depth", 3)])
+		n := []int{2, 20, 100}[g.draw("nest-depth", 3)]
+		if n >= 100 && !g.overflow() {
+			n = 20
+		}
+		return fmt.Sprintf("local function %s(t, n)\nif n <= 0 then return t end\nreturn {%s(t, n - 1)}\nend\nlocal %s = %s({}, %d)", f, f, r, f, n)
 	}
 }
 
@@ -1140,18 +1171,29 @@ func (g *pgen) protectedStmt(d int) string {
 	}
 	g.vars = append(g.vars, gvar{r1, kBool, false, 0}, gvar{r2, kAny, false, maxStrLen})
 	if g.chance("xpcall", 30) {
-		hs := []string{"function(e) return e end", "function(e) return tostring(e) .. \"!\" end", "print", "function(e) return {e} end", "tostring",
-			"function(e) error(e) end", "error", "function(e) local y = nil return y.z end"}
+		// listed finding panic-nil-return-value: an error raised while an xpcall message handler is
+		// called or runs (a raising handler, tostring/print of an arbitrary error object, or a call
+		// stack that is already full when the handler is invoked) leaves the VM state unrestored.
+		hs := []string{"function(e) return e end", "function(e) return {e} end", "type", "function(e) return 1 end",
+			"function(e) return tostring(e) .. \"!\" end", "print", "tostring", "function(e) error(e) end", "error", "function(e) local y = nil return y.z end"}
 		hi := g.draw("xp-handler", len(hs))
-		if hi >= 5 {
-			if isOpen(sigNilReturn) {
-				// listed finding panic-nil-return-value: message handler that raises an error
+		if isOpen(sigNilReturn) {
+			if g.overflowRisk {
 				g.exclude(sigNilReturn)
-				hi = hi - 5
-			} else {
-				g.class("xpcall-handler-raises")
+				return "local " + r1 + ", " + r2 + " = pcall(function()\n" + body + tail + "end)"
 			}
+			if hi >= 4 {
+				g.exclude(sigNilReturn)
+				hi = hi - 4
+				if hi >= 4 {
+					hi -= 4
+				}
+			}
+		} else if hi >= 4 {
+			g.class("xpcall-handler-may-raise")
 		}
+		g.usesXpcall = true
+		g.class("xpcall")
 		h := hs[hi]
 		return "local " + r1 + ", " + r2 + " = xpcall(function()\n" + body + tail + "end, " + h + ")"
 	}
@@ -1183,13 +1225,13 @@ func (g *pgen) escapeAttempt(d int) string {
 	case 3:
 		return "local _, " + r + " = pcall(dofile, \"" + S + "/payload.lua\")\nG2 = " + r
 	case 4:
-		return "local _, " + r + " = loadfile(\"" + S + "/secret.txt\")\nG3 = " + r
+		return "local _, _, " + r + " = pcall(loadfile, \"" + S + "/secret.txt\")\nG3 = " + r
 	case 5:
-		return "local " + r + " = loadfile(\"payload.lua\")\nif " + r + " then " + r + " = " + r + "() end"
+		return "local _, " + r + " = pcall(loadfile, \"payload.lua\")\nif type(" + r + ") == \"function\" then " + r + " = " + r + "() end"
 	case 6:
 		return "local _, " + r + " = pcall(dofile, \"" + S + "/missing.lua\")"
 	case 7:
-		return "local _, " + r + " = loadfile(\"" + S + "/missing/x.lua\")"
+		return "local _, _, " + r + " = pcall(loadfile, \"" + S + "/missing/x.lua\")"
 	case 8:
 		return "local _, " + r + " = pcall(function() package.path = \"" + S + "/?.lua\" return package.loadlib(\"libc.so.6\", \"system\") end)"
 	case 9:
